@@ -323,7 +323,14 @@ def c11_i5(ctx):
             for d in c.defs(0):
                 if d[0] == "assign" and d[3]["k"] == "agg" and d[3].get("variant") == "Ok":
                     e = simp(eb.rvalue(d[3]))
-                    oks.append(expr_str(e[5][0]) if e[5] else "?")
+                    v0 = e[5][0] if e[5] else None
+                    txt0 = expr_str(v0) if v0 is not None else "?"
+                    if v0 is not None and v0[0] == "place" and re.match(r"^\w+$", v0[1]) and not re.match(want, txt0):
+                        # a local the id was put in (`let id = transaction.id();`)
+                        ds0 = [sstr(x) for x in eb.var_defs(v0[1])]
+                        if len(ds0) == 1:
+                            txt0 = ds0[0]
+                    oks.append(txt0)
             key = "%s:task-result" % fn_name
             if oks and all(re.match(want, x) for x in oks):
                 yield ok("C11-I5", key, at(c), "task returns %s" % oks)
